@@ -589,6 +589,18 @@ func c33Run(t *testing.T, r *kit.Run, c c33Case, loads [][]byte, base string) (o
 			}
 		}
 	}
+	tryExec := func(s *Store, qs ...string) error {
+		res, _, err := s.Execute(ctx, executeRequestFromStrings(qs, false, true))
+		if err != nil {
+			return err
+		}
+		for _, x := range res {
+			if x.GetError() != "" {
+				return errors.New(x.GetError())
+			}
+		}
+		return nil
+	}
 	exec(s, true, append(strings.Split(c33Schema, ";"), "INSERT INTO c(n) VALUES(0)")...)
 
 	model := &c33Model{}
@@ -607,7 +619,12 @@ func c33Run(t *testing.T, r *kit.Run, c c33Case, loads [][]byte, base string) (o
 				model.add(fmt.Sprintf("m%d-%d-%s", i, x, strings.Repeat("00", 60)))
 			}
 		case 'S':
-			if err := s.Snapshot(0); err != nil && err != ErrNothingNewToSnapshot && err != ErrNoWALToSnapshot &&
+			err := s.Snapshot(0)
+			for deadline := time.Now().Add(60 * time.Second); err != nil && strings.Contains(err.Error(), "CAS conflict") && time.Now().Before(deadline); {
+				time.Sleep(20 * time.Millisecond) // a transient refusal while another snapshot-gated activity runs
+				err = s.Snapshot(0)
+			}
+			if err != nil && err != ErrNothingNewToSnapshot && err != ErrNoWALToSnapshot &&
 				!strings.Contains(err.Error(), "wait until the configuration entry") {
 				must("snapshot", err)
 			}
@@ -794,7 +811,17 @@ func c33Run(t *testing.T, r *kit.Run, c c33Case, loads [][]byte, base string) (o
 		return
 	}
 	steps++
-	exec(s2, true, c33Write("after-recovery", 2000)...)
+	if err := tryExec(s2, c33Write("after-recovery", 2000)...); err != nil {
+		if tables1 == tables0 && schema1 == schema0 {
+			obs = append(obs, "write-after-recovery:fails")
+			r.Violation("C33:write-fails-after-recovery:"+c.Close, fmt.Sprintf("%s: %v", where("write-after-recovery"), err), replay)
+		} else {
+			// the recovered database was already reported as wrong; nothing more to learn here
+			t.Logf("c33: %s: write on the already wrong database fails: %v", where("write-after-recovery"), err)
+		}
+		s2.Close(true)
+		return
+	}
 	if tables1 == tables0 {
 		// the node still holds what the reference model holds: the write must have had exactly its effect
 		model.add("after-recovery")
